@@ -25,8 +25,18 @@ type fenCase struct {
 	Input string `json:"input"`
 }
 
+// wellFormedAfterMove: the internal tables of a position reached by the engine's own moves are still
+// mutually consistent (the known game-phase drift, a listed finding of C03/C04, is not judged here).
+func wellFormedAfterMove(p *position.Position, ctx string) *hx.Failure {
+	f := checkSums(p, ctx)
+	if f != nil && strings.Contains(f.Sig, "gamePhase") {
+		return nil
+	}
+	return f
+}
+
 // exerciseAccepted runs the engine's own generators and predicates on an accepted position.
-func exerciseAccepted(p *position.Position) {
+func exerciseAccepted(p *position.Position) *hx.Failure {
 	mg := movegen.NewMoveGen()
 	p.HasCheck()
 	for sq := types.SqA1; sq <= types.SqH8; sq++ {
@@ -47,16 +57,24 @@ func exerciseAccepted(p *position.Position) {
 	}
 	evaluator.NewEvaluator().Evaluate(p)
 	// what a search does with the position: make every pseudo-legal move, test its legality afterwards, and
-	// generate / evaluate below it
+	// generate / evaluate below it; the position must stay consistent on the way
+	start := p.StringFen()
 	pseudo := mg.GeneratePseudoLegalMoves(p, movegen.GenAll, false).Clone()
 	mg3 := movegen.NewMoveGen()
 	for _, m := range *pseudo {
 		p.DoMove(m)
 		if p.WasLegalMove() {
+			if f := wellFormedAfterMove(p, fmt.Sprintf("%s after %s", start, m.StringUci())); f != nil {
+				return f
+			}
 			p.HasCheck()
 			for _, m2 := range *mg3.GeneratePseudoLegalMoves(p, movegen.GenAll, p.HasCheck()).Clone() {
 				p.DoMove(m2)
-				p.WasLegalMove()
+				if p.WasLegalMove() {
+					if f := wellFormedAfterMove(p, fmt.Sprintf("%s after %s %s", start, m.StringUci(), m2.StringUci())); f != nil {
+						return f
+					}
+				}
 				p.UndoMove()
 			}
 			mg3.HasLegalMove(p)
@@ -72,7 +90,8 @@ func exerciseAccepted(p *position.Position) {
 		p.UndoMove()
 	}
 	p.CheckRepetitions(2)
-	p.String()
+	_ = p.String()
+	return nil
 }
 
 func fenClass(s string) string {
@@ -165,7 +184,12 @@ func propC16Fen(c fenCase, o *hx.Obs) *hx.Failure {
 		return hx.Failf("C16/fen-roundtrip/legal-position-text", "legal position %q prints as %q, want %q", in, out, ref.FEN())
 	}
 	// (iii) the engine's own generators and predicates run on it
-	if f := hx.Guard("C16/fen-accepted", func() *hx.Failure { exerciseAccepted(p); return nil }); f != nil {
+	if f := hx.Guard("C16/fen-accepted", func() *hx.Failure { return exerciseAccepted(p) }); f != nil {
+		if strings.HasPrefix(f.Sig, "C04/sums/") {
+			f.Sig = "C16/fen-accepted-then-corrupt/" + strings.TrimPrefix(f.Sig, "C04/sums/")
+			f.Msg = fmt.Sprintf("NewPositionFen(%q) accepted (as %q) but the engine's own moves corrupt it: %s", in, out, f.Msg)
+			return f
+		}
 		f.Sig = "C16/fen-accepted-then-panic/" + cls + "/" + strings.TrimPrefix(f.Sig, "C16/fen-accepted/panic/")
 		f.Msg = fmt.Sprintf("NewPositionFen(%q) accepted (as %q) but using the position panics: %s", in, out, f.Msg)
 		return f
@@ -176,11 +200,17 @@ func propC16Fen(c fenCase, o *hx.Obs) *hx.Failure {
 var fenAlphabet = []string{"p", "n", "b", "r", "q", "k", "P", "N", "B", "R", "Q", "K", "/", "1", "2", "3", "4", "5", "6", "7", "8", "9", "0", " ", "w", "b", "-", "KQkq", "e3", "e6", "a6", "h3", "e1", "x", "é", "-1", "99999999999999999999"}
 
 // mutateFen applies a drawn structural mutation to a valid FEN.
-func mutateFen(t *rapid.T, fen string) string {
+func mutateFen(t *rapid.T, fen string) string { return mutateFenKind(t, fen, -1) }
+
+// mutateFenKind applies mutation kind (or a drawn one when kind < 0).
+func mutateFenKind(t *rapid.T, fen string, kind int) string {
 	f := strings.Fields(fen)
 	ranks := strings.Split(f[0], "/")
 	pick := func(n int, l string) int { return rapid.IntRange(0, n-1).Draw(t, l) }
-	switch rapid.IntRange(0, 20).Draw(t, "mutation") {
+	if kind < 0 {
+		kind = rapid.IntRange(0, 20).Draw(t, "mutation")
+	}
+	switch kind {
 	case 0: // truncate anywhere
 		return fen[:pick(len(fen)+1, "cut")]
 	case 1: // over-long rank: extra piece
@@ -301,6 +331,16 @@ func TestC16(t *testing.T) {
 	hx.Sub(r, "fen-mutated", r.N(30000, 300000), func(t *rapid.T) fenCase {
 		p := hx.GenPosition(t)
 		fen := p.FEN()
+		// text-valid but possibly illegal positions on sparse boards (empty back ranks: castling paths are free,
+		// kings are exposed): other side to move / an additional piece / unsupported castling rights
+		if rapid.IntRange(0, 3).Draw(t, "sparseIllegal") == 0 {
+			q := hx.GenConstructed(t, rapid.IntRange(2, 8).Draw(t, "pieces"))
+			fen = q.FEN()
+			for i := rapid.IntRange(1, 2).Draw(t, "nvalid"); i > 0; i-- {
+				fen = mutateFenKind(t, fen, rapid.IntRange(18, 20).Draw(t, "validKind"))
+			}
+			return fenCase{Input: fen}
+		}
 		n := rapid.IntRange(1, 2).Draw(t, "nmut")
 		for i := 0; i < n; i++ {
 			fen = mutateFen(t, fen)
